@@ -164,7 +164,10 @@ def trace_for(build, how, target, kinds):
     """build() -> (root LASFile or section or item, select(root) -> object to copy)."""
     root, select = build()
     obj = select(root)
-    cp = do_copy(obj, how)
+    try:
+        cp = do_copy(obj, how)
+    except Exception as x:          # an observation, not a harness failure: pickling / copying must work
+        return [{"op": "copyfail", "how": how, "target": target, "exc": "%s: %s" % (type(x).__name__, str(x)[:200])}]
     ev = {"op": "copy", "how": how, "target": target, "orig": project(obj), "copy": project(cp)}
     ev["worig"] = write_text(obj)
     ev["wcopy"] = write_text(cp)
